@@ -25,6 +25,11 @@ CLAIMED = {
         text="Exploration: a rule-based state machine generates interleavings of deepen() and make_children(leaf, newlayer=callers' convention) on every partition class; after every step an invariant compares the per-depth node lists with the tree reachable from the root (each cell once, right layer, parent/child links both ways, no child list aliasing a layer, depth bookkeeping, label arithmetic). The same invariant is evaluated on every partition created by generated algorithm runs (including every learner of POO/GPO) after every round.",
         note="Only leaves are expanded directly, with the documented newlayer convention (the property's quantifier). Histories are capped at 3000 cells. A crash of the code under test aborts the case (C01's business).",
         ref="4/C03"),
+    "C17": dict(
+        technique="property-based testing (Hypothesis, target()-guided) over structured generators of points of each objective's box; bound/finite/purity oracle; enumerated maximiser and wrong-dimension sub-checks",
+        text="Exploration: >1e5 generated points per quick run, concentrated by construction on the thin regions where a violation could hide (maximisers, Garland's cusps k*pi/60, DoubleSine's tmax+-2^-j, DifficultFunc's 0.5+-e^-m, log-scale neighbourhoods of the origin, +-8 ulp neighbours, box end points), f(x) <= fmax with zero tolerance wherever IEEE rounding monotonicity makes the bound exact, attainment at the documented maximisers, purity, ValueError on wrong-length points. A supremum over a continuum is attacked, not enclosed.",
+        note="Ackley's bound uses a tolerance of 8 ulp(22.7); DoubleSine parameters restricted to the property's quantifier; perturbed variants are seeded through np.random.seed before construction.",
+        ref="4/C17"),
 }
 
 NOT_YET = "check not built yet in this round (planned in DESIGN.md section 4); property-based testing applies"
